@@ -34,7 +34,7 @@ package afpacket
 //@ func (*Source).SetBPFFilter
 //@   sig s, bpfFilter, maxPacketLength
 //@   locals pcapBPF: []github.com/google/gopacket/pcap.BPFInstruction ;; err: error ;; bpfIns: []golang.org/x/net/bpf.RawInstruction ;; ins: github.com/google/gopacket/pcap.BPFInstruction ;; rawIns: golang.org/x/net/bpf.RawInstruction
-//@   props C03
+//@   props C03 C01 C02
 //@   observe pcap.CompileBPFFilter, SetBPF
 //@   entry row bad:  [call pcap.CompileBPFFilter(s.linkType, maxPacketLength, bpfFilter) as (ins, e)] when e != nil && ret == e -> exit
 //@   entry row good: [call pcap.CompileBPFFilter(s.linkType, maxPacketLength, bpfFilter) as (ins, e)] when e == nil && len(bpfIns) == 0 -> loop 0
